@@ -108,9 +108,28 @@ def build_coq(targets=None, clean=False):
         return rc == 0, out
 
 
-def scan_forbidden():
+REQ_RE = re.compile(r"From\s+KV\s+Require\s+(?:Import|Export)\s+([^.]*(?:\.[A-Za-z_][\w]*)*[^.]*)\.\s", re.S)
+
+
+def coq_closure(roots):
+    """.v files of the development that the given theory files depend on (transitively)."""
+    seen, todo = set(), list(roots)
+    while todo:
+        f = todo.pop()
+        if f in seen or not os.path.exists(f):
+            continue
+        seen.add(f)
+        txt = open(f, errors="replace").read()
+        for m in re.finditer(r"From\s+KV\s+Require\s+(?:Import|Export)\s+(.*?)\.\s", txt, re.S):
+            for mod in m.group(1).split():
+                todo.append(os.path.join(COQ, "theories", *mod.split(".")) + ".v")
+    return sorted(seen)
+
+
+def scan_forbidden(roots=None):
     bad = []
-    for f in glob.glob(os.path.join(COQ, "theories", "**", "*.v"), recursive=True):
+    files = coq_closure(roots) if roots else glob.glob(os.path.join(COQ, "theories", "**", "*.v"), recursive=True)
+    for f in files:
         txt = open(f, errors="replace").read()
         # strip comments (non nested is enough for our own files; nested handled by loop)
         prev = None
